@@ -32,7 +32,7 @@ from jax2onnx.plugins._ir_shapes import _ensure_value_metadata, _stamp_type_and_
 from jax2onnx.plugins._patching import AssignSpec, MonkeyPatchSpec
 from jax2onnx.plugins.jax._autodiff_utils import register_jvp_via_jax_jvp
 from jax2onnx.plugins.jax.numpy._common import get_orig_impl, make_jnp_primitive
-from jax2onnx.plugins.jax._batching_utils import broadcast_batcher_compat
+from jax2onnx.plugins.jax._batching_utils import matmul_batcher_compat
 from jax2onnx.converter.typing_support import LoweringContextProtocol
 from jax2onnx.plugins.plugin_system import PrimitiveLeafPlugin, register_primitive
 
@@ -446,7 +446,7 @@ JnpMatmulPlugin._PRIM.def_abstract_eval(JnpMatmulPlugin.abstract_eval)
 def _matmul_batch_rule(
     args: tuple[Any, ...], dims: tuple[Any, ...], **params: Any
 ) -> Any:
-    return broadcast_batcher_compat(JnpMatmulPlugin._PRIM, args, dims, **params)
+    return matmul_batcher_compat(JnpMatmulPlugin._PRIM.bind, args, dims, **params)
 
 
 batching.primitive_batchers[JnpMatmulPlugin._PRIM] = _matmul_batch_rule
